@@ -156,10 +156,51 @@ let show_request = function
 
 let opt_hex s = if s = "-" then [] else bytes_of_hex s
 
+(* ---- dump of the specification environment, read by the Python case generators *)
+let rec show_ty (t : ty) : string =
+  match t with
+  | TU8 -> "u8" | TU16 -> "u16" | TU32 -> "u32" | TU64 -> "u64" | TUsize -> "usize" | TI8 -> "i8"
+  | TI32 -> "i32" | TBool -> "bool" | TUnit -> "unit" | TBytesRef -> "bytesref"
+  | TBytesCap n -> "bytescap:" ^ hex_of_z n | TByteArrRef n -> "bytearrref:" ^ hex_of_z n
+  | TByteArr n -> "bytearr:" ^ hex_of_z n | TArrRef n -> "arrref:" ^ hex_of_z n | TArr n -> "arr:" ^ hex_of_z n
+  | TSliceRef -> "sliceref" | TStrRef -> "strref" | TStrCap n -> "strcap:" ^ hex_of_z n
+  | TVec (u, n) -> "vec(" ^ show_ty u ^ "," ^ hex_of_z n ^ ")"
+  | TOpt u -> "opt(" ^ show_ty u ^ ")" | TRef u -> "ref(" ^ show_ty u ^ ")"
+  | TNamed s -> "named:" ^ str s | TExt s -> "ext:" ^ str s | TUnknown s -> "unknown"
+
+let dump_env (e : env) : unit =
+  let b x = if x then "1" else "0" in
+  List.iter
+    (fun (name, d) ->
+      match d with
+      | DStruct (idx, ser, de, fs) ->
+          Printf.printf "struct\t%s\t%s\t%s\t%s\n" (str name) (if idx then "idx" else "txt") (b ser) (b de);
+          List.iter
+            (fun fd ->
+              Printf.printf "field\t%s\t%s\t%s\t%s\t%s\t%s\t%s\t%s\t%s\n" (str fd.f_label)
+                (match fd.f_key with KInt z -> "i" ^ hex_of_z z | KText s -> "t" ^ str s)
+                (show_ty fd.f_ty) (b fd.f_opt) (b fd.f_skip_none) (b fd.f_skip_ser) (b fd.f_default)
+                (match fd.f_with with Some w -> str w | None -> "-")
+                (String.concat "," (List.map str fd.f_aliases)))
+            fs
+      | DStrEnum (ser, de, into, tf) ->
+          Printf.printf "strenum\t%s\t%s\t%s\t%s\n" (str name) (b ser) (b de)
+            (String.concat "," (List.map (fun (v, s) -> str v ^ "=" ^ str s) into))
+      | DRepr (repr, ser, de, vs) ->
+          Printf.printf "repr\t%s\t%s\t%s\t%s\t%s\n" (str name) (str repr) (b ser) (b de)
+            (String.concat "," (List.map (fun (v, z) -> str v ^ "=" ^ hex_of_z z) vs))
+      | DUntagged (ser, vs) ->
+          Printf.printf "untagged\t%s\t%s\n" (str name) (String.concat "," (List.map (fun (v, t) -> str v ^ "=" ^ show_ty t) vs))
+      | DCustom (k, ser, de, ps) ->
+          Printf.printf "custom\t%s\t%s\t%s\t%s\n" (str name) (b ser) (b de) (String.concat "," (List.map hex_of_z ps))
+      | DOpaque -> ())
+    e
+
 let () =
   let feats = if Array.length Sys.argv > 1 && Sys.argv.(1) <> "" then List.map cl (String.split_on_char ',' Sys.argv.(1)) else [] in
   let env = spec_env feats in
   let tb = spec_tables in
+  if Array.length Sys.argv > 2 && Sys.argv.(2) = "dumpenv" then (dump_env env; exit 0);
   let out = Buffer.create (1 lsl 20) in
   (try
      while true do
